@@ -438,29 +438,35 @@ def run_cli(ctx, drv, treq, rng):
             ('info-m-continue', ['info', '-m', '--continue-on-error'], good + v['stop'][:30] , None),
         ]
         for name, args, data, nmsg in runs:
-            path = os.path.join(tmp, name + '.bufr')
-            with open(path, 'wb') as f:
-                f.write(data)
-            p = subprocess.run([sys.executable, '-m', 'pybufrkit'] + args + [path], stdout=subprocess.PIPE,
-                               stderr=subprocess.PIPE, env=env, cwd=tmp, timeout=120)
-            err = p.stderr.decode(errors='replace')
-            outp = p.stdout.decode(errors='replace')
             ctx.case({'cli': name, 'args': args}, nontrivial=True)
             ctx.count('cli-runs')
-            bad = None
-            if 'Traceback' in err or 'Traceback' in outp:
-                bad = 'a traceback is printed'
-            elif not err.strip():
-                bad = 'nothing is reported on stderr'
-            elif p.returncode not in (0, 1, 2):
-                bad = 'exit status %d' % p.returncode
-            elif nmsg is not None and outp.count('<<<<<< section 0 >>>>>>') != nmsg:
-                bad = '%d messages printed, %d expected' % (outp.count('<<<<<< section 0 >>>>>>'), nmsg)
-            if bad:
-                ctx.violation('oracle: command line `pybufrkit %s` on a damaged file: %s (stderr %r)' % (' '.join(args), bad, err[-300:]),
-                              {'cli': args, 'file_hex': data.hex(), 'name': name}, signature={'stage': 'cli', 'run': name})
+            cli_one(ctx, tmp, env, name, args, data, nmsg)
     finally:
         shutil.rmtree(tmp, ignore_errors=True)
+
+
+def cli_one(ctx, tmp, env, name, args, data, nmsg):
+    path = os.path.join(tmp, name + '.bufr')
+    with open(path, 'wb') as f:
+        f.write(data)
+    p = subprocess.run([sys.executable, '-m', 'pybufrkit'] + args + [path], stdout=subprocess.PIPE,
+                       stderr=subprocess.PIPE, env=env, cwd=tmp, timeout=120)
+    err = p.stderr.decode(errors='replace')
+    outp = p.stdout.decode(errors='replace')
+    bad = None
+    if 'Traceback' in err or 'Traceback' in outp:
+        bad = 'a traceback is printed'
+    elif not err.strip():
+        bad = 'nothing is reported on stderr'
+    elif p.returncode not in (0, 1, 2):
+        bad = 'exit status %d' % p.returncode
+    elif nmsg is not None and outp.count('<<<<<< section 0 >>>>>>') != nmsg:
+        bad = '%d messages printed, %d expected' % (outp.count('<<<<<< section 0 >>>>>>'), nmsg)
+    if bad:
+        ctx.violation('oracle: command line `pybufrkit %s` on a damaged file: %s (stderr %r)' % (' '.join(args), bad, err[-300:]),
+                      {'cli': args, 'file_hex': data.hex(), 'name': name, 'expected_messages': nmsg},
+                      signature={'stage': 'cli', 'run': name})
+    return bad
 
 
 def run(ctx):
@@ -488,7 +494,13 @@ def replay(ctx, path):
         print('replay: proof obligation; re-run ./check C12')
         return
     if 'cli' in rep:
-        print('replay: command-line case %s; re-run ./check C12' % rep.get('name'))
+        tmp = tempfile.mkdtemp(prefix='verif_c12_', dir='/tmp')
+        try:
+            bad = cli_one(ctx, tmp, dict(os.environ, PYTHONPATH=core.REPO), rep.get('name', 'replay'), rep['cli'],
+                          bytes.fromhex(rep['file_hex']), rep.get('expected_messages'))
+        finally:
+            shutil.rmtree(tmp, ignore_errors=True)
+        print('replay: pybufrkit %s -> %s' % (' '.join(rep['cli']), bad or 'library error reported without a traceback'))
         return
     if 'message_hex' in rep:
         from pybufrkit.decoder import Decoder
